@@ -2,13 +2,12 @@
    "codegen-rv"  the model of axcut2rv64 against the real crate: instruction list (modulo comments),
                  printed routine text (verbatim, comments included), capacity/print panics;
    "sem-rv"      executable form of C08 on the implementation's output: the emitted code run on
-                 Sem/RVSem against the AxCut linear machine, and against the x86-64 code of the same
-                 program run on Sem/X86Sem (three_backends_agree; AArch64 joins when its ISA model
-                 exists).
+                 Sem/RVSem against the AxCut linear machine, and against the x86-64 and AArch64 code
+                 of the same program run on Sem/X86Sem and Sem/A64Sem (three_backends_agree).
    Both accept the case shape of `harness codegen-rv` (rust output = rv result) and of
    `harness codegen-all` (rust output = (all <rv> <x86> <a64>)). *)
 From Coq Require Import List ZArith NArith String Bool.
-From SCC Require Model.X86 Model.X86Io Sem.X86Sem.
+From SCC Require Model.X86 Model.X86Io Sem.X86Sem Model.A64 Model.A64Io Sem.A64Sem.
 From SCC Require Import Base.Sexp Lang.AxSyn Sem.AxSem Model.Backend Model.RV Model.RVIo Sem.RVSem Model.RunBase.
 Import ListNotations.
 Open Scope string_scope.
@@ -110,38 +109,40 @@ Definition isa_inner : nat := 2000.
 Definition comparable (o : obs) : bool :=
   match snd o with OExit _ | OUndef _ => true | _ => false end.
 
-(* C08, first half: AxCut linear machine vs. the emitted RISC-V code, per argument tuple.
+(* C08 on one argument tuple.  First half: AxCut linear machine vs. the emitted RISC-V code.
    Runs of the reference machine that end in OExit or in a source-level undefined operation
-   (OUndef) are compared; stuck / out-of-fuel reference runs are outside the property. *)
-Definition sem_check_rv (p : prog) (cs : list rcode) (argss : list (list Z)) : option string * Z :=
+   (OUndef) are compared; stuck / out-of-fuel reference runs are outside the property.
+   Second half (three_backends_agree): the RISC-V run agrees with the run of the x86-64 code and of
+   the AArch64 code of the same program on their ISA models (when that code exists and the
+   argument count fits the back end's calling convention: 5 resp. 7 integer arguments). *)
+Definition other_backend := (string * nat * (list Z -> obs))%type.
+
+Definition check_tuple (p : prog) (cs : list rcode) (others : list other_backend) (args : list Z) : option string * Z :=
+  let ref := run_linear lin_fuel p args in
+  if comparable ref then
+    let '(got, st) := run_rv isa_outer isa_inner cs args in
+    let hw := heap_high_water st in
+    if negb (obs_eqb ref got)
+    then (Some ("class=rv-semantic-mismatch args=" ++ show (sL sZ args) ++ " expected=" ++ show (s_obs ref) ++ " got=" ++ show (s_obs got)), hw)
+    else
+      (fold_left (fun (acc : option string) (o : other_backend) =>
+         match acc with
+         | Some _ => acc
+         | None =>
+             let '(name, maxargs, runner) := o in
+             if Nat.ltb maxargs (List.length args) then None else
+             let x := runner args in
+             if obs_eqb got x then None
+             else Some ("class=rv-" ++ name ++ "-disagree args=" ++ show (sL sZ args) ++ " rv=" ++ show (s_obs got) ++ " " ++ name ++ "=" ++ show (s_obs x))
+         end) others None, hw)
+  else (None, 0%Z).
+
+Definition sem_check_rv (p : prog) (cs : list rcode) (others : list other_backend) (argss : list (list Z)) : option string * Z :=
   fold_left (fun (acc : option string * Z) args =>
     match fst acc with
     | Some _ => acc
-    | None =>
-        let ref := run_linear lin_fuel p args in
-        if comparable ref then
-          let '(got, st) := run_rv isa_outer isa_inner cs args in
-          let hw' := Z.max (snd acc) (heap_high_water st) in
-          if obs_eqb ref got then (None, hw')
-          else (Some ("class=rv-semantic-mismatch args=" ++ show (sL sZ args) ++ " expected=" ++ show (s_obs ref) ++ " got=" ++ show (s_obs got)), hw')
-        else acc
+    | None => let '(r, hw) := check_tuple p cs others args in (r, Z.max (snd acc) hw)
     end) argss (None, 0%Z).
-
-(* C08, second half: the RISC-V run and the x86-64 run of the same program agree *)
-Definition agree_check_x86 (p : prog) (cs : list rcode) (xs : list X86.xcode) (argss : list (list Z)) : option string :=
-  fold_left (fun acc args =>
-    match acc with
-    | Some _ => acc
-    | None =>
-        if Nat.ltb 5 (List.length args) then None else
-        let ref := run_linear lin_fuel p args in
-        if comparable ref then
-          let rv := fst (run_rv isa_outer isa_inner cs args) in
-          let x := fst (X86Sem.run_x86 isa_outer isa_inner xs args) in
-          if obs_eqb rv x then None
-          else Some ("class=rv-x86-disagree args=" ++ show (sL sZ args) ++ " rv=" ++ show (s_obs rv) ++ " x86=" ++ show (s_obs x))
-        else None
-    end) argss None.
 
 Definition count_runs (p : prog) (argss : list (list Z)) (f : outcome -> bool) : nat :=
   List.length (filter (fun args => f (snd (run_linear lin_fuel p args))) argss).
@@ -164,28 +165,34 @@ Definition sem_rv_case (i r : sexp) : verdict :=
               match g_ritems cs with
               | Some items =>
                   let cs := codes_of items in
-                  match sem_check_rv p cs argss with
+                  let '(xo, xt) :=
+                    match x86 with
+                    | Some (L [xs; _]) =>
+                        match X86Io.g_xcodes xs with
+                        | Some xs => ([("x86", 5%nat, fun args => fst (X86Sem.run_x86 isa_outer isa_inner xs args))], " x86")
+                        | None => ([], " x86-unreadable")
+                        end
+                    | Some _ => ([], " x86-panic")
+                    | None => ([], "")
+                    end in
+                  let '(ao, at_) :=
+                    match a64 with
+                    | Some (L [xs; _]) =>
+                        match A64Io.g_acodes xs with
+                        | Some xs => ([("a64", 7%nat, fun args => fst (A64Sem.run_a64 isa_outer isa_inner xs args))], " a64")
+                        | None => ([], " a64-unreadable")
+                        end
+                    | Some _ => ([], " a64-panic")
+                    | None => ([], "")
+                    end in
+                  match sem_check_rv p cs (xo ++ ao)%list argss with
                   | (Some why, _) => VViol why
                   | (None, hw) =>
-                      let xres :=
-                        match x86 with
-                        | Some (L [xs; _]) =>
-                            match X86Io.g_xcodes xs with
-                            | Some xs => match agree_check_x86 p cs xs argss with Some why => inl why | None => inr " x86" end
-                            | None => inr " x86-unreadable"
-                            end
-                        | Some _ => inr " x86-panic"
-                        | None => inr ""
-                        end in
-                      match xres with
-                      | inl why => VViol why
-                      | inr xt =>
-                          VOk (rv_tags cs ++ xt
-                               ++ " exit" ++ n_to_string (N.of_nat (count_runs p argss (fun o => match o with OExit _ => true | _ => false end)))
-                               ++ " undef" ++ n_to_string (N.of_nat (count_runs p argss (fun o => match o with OUndef _ => true | _ => false end)))
-                               ++ (if Nat.ltb RV_CAPACITY live then " beyond14" else "")
-                               ++ " blocks" ++ (if Z.ltb hw HEAP_BASE then "0" else n_to_string (N.log2 (Z.to_N ((hw - HEAP_BASE) / 64 + 1)) + 1)))
-                      end
+                      VOk (rv_tags cs ++ xt ++ at_
+                           ++ " exit" ++ n_to_string (N.of_nat (count_runs p argss (fun o => match o with OExit _ => true | _ => false end)))
+                           ++ " undef" ++ n_to_string (N.of_nat (count_runs p argss (fun o => match o with OUndef _ => true | _ => false end)))
+                           ++ (if Nat.ltb RV_CAPACITY live then " beyond14" else "")
+                           ++ " blocks" ++ (if Z.ltb hw HEAP_BASE then "0" else n_to_string (N.log2 (Z.to_N ((hw - HEAP_BASE) / 64 + 1)) + 1)))
                   end
               | None => VBad "rust output unreadable"
               end
